@@ -120,10 +120,11 @@ def check_run(run, res: Result, case):
                     res.count("window_checks_simulated")
                 judged_tags.add(name)
                 lo_k, hi_k = run.window(k)
+                if info["chg_unmask"]:
+                    res.count("unmask_checks")          # last change = end of a simulation
                 if lo_k <= tt < hi_k:
                     res.count("window_ok")
                 elif info["chg_unmask"]:
-                    res.count("unmask_checks")
                     j = info["raw_chg_tick"]
                     if j is not None and j >= 1:
                         ok = run.in_window(tt, j)
